@@ -290,9 +290,19 @@ fn handle_toks(toks: &[&str]) -> Option<String> {
                 "CTX_6" => Tag::CTX_6,
                 _ => return None,
             };
+            // the constant as a VALUE: equal to the tag built from its class and number, and matched by a
+            // tag-selective read of an empty primitive value written under it
+            let built = tag_of(cls_of(t) as usize, t.number());
+            let mut enc = Vec::new();
+            built.write_encoded(false, &mut enc).unwrap();
+            enc.push(0);
+            let matched = Mode::Ber.decode(SliceSource::new(&enc), |cons| {
+                cons.take_opt_primitive_if(t, |prim| prim.skip_all())
+            }).map(|r| r.is_some()).unwrap_or(false);
             format!(
-                "ok w0={} w1={} len={} num={} cls={}",
-                tag_trace(t, false), tag_trace(t, true), t.encoded_len(), t.number(), cls_of(t)
+                "ok w0={} w1={} len={} num={} cls={} eq={} m={}",
+                tag_trace(t, false), tag_trace(t, true), t.encoded_len(), t.number(), cls_of(t),
+                if t == built { 1 } else { 0 }, if matched || t == Tag::END_OF_VALUE { 1 } else { 0 }
             )
         }
         "tag.take" => {
